@@ -38,6 +38,9 @@ func genCtl(r *simrt.Rand, tier string, flavor string) json.RawMessage {
 	if flavor == "C14" && r.Bool(0.2) {
 		return genCtlReplicaChangeBetweenSnapshots(r, c)
 	}
+	if (flavor == "C20" || flavor == "C18") && r.Bool(0.15) {
+		return genCtlRemoveLeader(r, c)
+	}
 	slot := 0
 	nodes := c.Nodes
 	maxNodes := 5
@@ -172,6 +175,24 @@ func genCtlReplicaChangeBetweenSnapshots(r *simrt.Rand, c W3Case) json.RawMessag
 	return b
 }
 
+// genCtlRemoveLeader: the first node is cut off until another member leads, then members
+// other than the first are removed one after the other (one of them is likely the
+// leader) and the cluster has to keep working: a node joins, datasets are created.
+func genCtlRemoveLeader(r *simrt.Rand, c W3Case) json.RawMessage {
+	c.Nodes = r.Range(3, 5)
+	c.Faults = false
+	c.Ops = append(c.Ops, W3Op{K: "isolate", Node: 1}, W3Op{K: "wait", Ms: r.Range(6000, 12000)}, W3Op{K: "heal"}, W3Op{K: "wait", Ms: r.Range(2000, 5000)})
+	nodes := c.Nodes
+	for _, t := range r.Perm(nodes - 1)[:r.Range(1, nodes-2)] {
+		c.Ops = append(c.Ops, W3Op{K: "removenode", Node: 1, A: t + 2})
+	}
+	nodes++
+	c.Ops = append(c.Ops, W3Op{K: "join", Node: nodes})
+	c.Ops = append(c.Ops, W3Op{K: "create", Node: 1, DS: 1, P: r.Range(1, 2), R: r.Range(1, 2)})
+	b, _ := json.Marshal(CtlCase{W3: c})
+	return b
+}
+
 type ctlState struct {
 	removed        map[int]bool // node index -> removal acknowledged (node stopped for good)
 	joinAcked      map[int]bool // node index -> its join handshake completed at least once
@@ -254,6 +275,18 @@ func (r *W3Run) execCtlOps(st *ctlState) {
 				continue
 			}
 			via, target := s.nodes[0], s.nodes[op.A-1]
+			// A removal that overlaps a join handshake of the same node has no determinate
+			// outcome: the member that handles the join may propose it before or after the
+			// removal (a request of a crashed incarnation can still arrive late, a proposal
+			// reported as "not applied in time" can still be applied). The operator first
+			// lets a recent handshake settle; if the node keeps trying to join, nothing is
+			// asserted about it afterwards.
+			const joinSettle = 20 * time.Second
+			if target.joinAct >= 0 && s.now()-target.joinAct < joinSettle {
+				s.runFor(joinSettle - (s.now() - target.joinAct))
+			}
+			overlap := target.joinAct >= 0 && s.now()-target.joinAct < joinSettle
+			invoked := s.now()
 			var h *histOp
 			// the operator repeats the request until it is acknowledged
 			for attempt := 0; attempt < 6; attempt++ {
@@ -270,12 +303,24 @@ func (r *W3Run) execCtlOps(st *ctlState) {
 				s.runFor(3 * time.Second)
 			}
 			s.out.Stat("membership_removals", 1)
-			if h.done && h.err == nil {
+			if target.joinAct >= invoked {
+				overlap = true
+			}
+			if overlap {
+				s.out.Stat("membership_removals_overlapping_a_join", 1)
+			}
+			if h.done && h.err == nil && !overlap {
 				// acknowledged: the operator lets the cluster move the node's partitions
 				// (their groups need the node's vote to shrink) and then takes it out of service
 				st.removed[op.A] = true
 				s.runFor(15 * time.Second)
-				if target.alive {
+				if target.alive && (r.c.Cfg.Seed>>(uint(i)%32))&1 == 1 {
+					// ... or forgets to: the removed node's process keeps running (it is never
+					// restarted and nothing is asserted about it); the remaining members must
+					// not depend on it going away, in particular not when it was the leader
+					target.limbo = true
+					s.out.Stat("membership_removed_node_left_running", 1)
+				} else if target.alive {
 					s.pump()
 					s.stopNode(target, false)
 				}
